@@ -75,7 +75,7 @@ def ambiguous(line):
     """C04 takes the tables as given, which presupposes that one entity has one index (C11, Unique)"""
     for name, keys in (("exchange", [x for x in line["ex"]]),
                        ("asset", [(x["ex"], x["a"]) for x in line["as"]]),
-                       ("instrument", [(x["ex"], x["ni"]) for x in line["ins"]])):
+                       ("instrument", [(x["ex"], x["ni"], x["nx"], x["kind"]) for x in line["ins"]])):
         if len(set(keys)) != len(keys):
             return "tables", "one %s has two indices" % name
     return None
